@@ -2,6 +2,7 @@ import Driver.Util
 import Rivia.Model.Path
 import Rivia.Spec.GoClean
 import Rivia.Spec.PathLaws
+import Rivia.Spec.Expand
 
 namespace Driver
 open Rivia
@@ -78,7 +79,18 @@ def pathFn (fn : String) (args : List String) : Option String :=
     pure (line3 ("ok " ++ showList [r, nav]) ("ok " ++ showList [shape, p]) "-")
   | "expand", [a, e] => do
     let s ← strOfArg a; let env ← envOfArg e
-    pure (line3 (showOutcome showStr (expand (envLookup env) s)) "-" "-")
+    let en := envLookup env
+    -- spec (C17): inside D the exact result; inside DErr the same result or both fail (the order of
+    -- failure reasons is not pinned down); a component that ends in a bare `$` is the recorded finding
+    let sp := Spec.expandSpec en s
+    let (spc, cls) : String × String :=
+      if Spec.D en s then (showOutcome showStr sp, "-")
+      else if Spec.DErr en s then ((match sp with | .ok x => okStr x | _ => "err *"), "-")
+      else if (match expand en s with | .ok _ => true | _ => false) && (match sp with | .err .invalidExpansion => true | _ => false)
+              && !((splitSlash s).any Spec.Ambiguous)
+        then ("err *", "trailing_dollar")
+      else ("-", "-")
+    pure (line3 (showOutcome showStr (expand en s)) spc cls)
   | "abs_memfs", [c, a, e] => do
     let cwd ← strOfArg c; let s ← strOfArg a; let env ← envOfArg e
     -- spec (C05): lexical join of the expanded, protocol-trimmed argument onto cwd, Go-cleaned;
